@@ -6,7 +6,29 @@ Cases == JsonDeserialize(IOEnv.TRACE_FILE)
 VARIABLE i
 PixSetOf(sq) == {<<sq[j][1], sq[j][2]>> : j \in 1..Len(sq)}
 
+\* detect_threshold estimating the noise (and the background when none is given) from the UNMASKED pixels.  Precondition checked here:
+\* nothing is sigma-clipped (all unmasked values within 3 sigma of their mean).  With n values, sum S and sum of squares Q:
+\* n^2 var = n Q - S^2, so threshold = bg + nsigma std  <=>  n^2 (thr - bg)^2 = nsigma^2 (n Q - S^2) and thr >= bg.
+RECURSIVE SumSeq(_)
+SumSeq(s) == IF Len(s) = 0 THEN 0 ELSE Head(s) + SumSeq(Tail(s))
+EstClause(c) ==
+  LET dd == FromRows(c.data)
+      bad == PixSetOf(c.mask)
+      good == SetToSeq(DOMAIN dd \ bad)
+      n == Len(good)
+      S == SumSeq([k \in 1..n |-> dd[good[k]]])
+      Q == SumSeq([k \in 1..n |-> dd[good[k]] * dd[good[k]]])
+      V == n * Q - S * S
+      out == FromRows(c.out)
+      bgm == FromRows(c.bg)
+  IN IF \E k \in 1..n : (n * dd[good[k]] - S) * (n * dd[good[k]] - S) > 9 * V THEN "ok"     \* precondition fails: clipping would act
+     ELSE IF c.bgkind = "none"
+          THEN (IF \A p \in DOMAIN out : n * out[p] >= S /\ (n * out[p] - S) * (n * out[p] - S) = c.nsigma * c.nsigma * V THEN "ok"
+                ELSE "threshold_estimates_come_from_the_unmasked_pixels")
+          ELSE (IF \A p \in DOMAIN out : out[p] >= bgm[p] /\ n * n * (out[p] - bgm[p]) * (out[p] - bgm[p]) = c.nsigma * c.nsigma * V THEN "ok"
+                ELSE "threshold_noise_estimate_comes_from_the_unmasked_pixels")
 Clause(c) ==
+  IF c.kind = "threshold_est" THEN EstClause(c) ELSE
   IF c.kind = "threshold" THEN
        (IF FromRows(c.out) = Threshold(FromRows(c.bg), FromRows(c.err), c.nsigma) THEN "ok" ELSE "threshold_pixelwise")
   ELSE
